@@ -20,13 +20,17 @@
    configured peer unreachable.  Exceptions are modelled by a result type with [Raise]; [catch] marks exactly the
    places where the code has `try: ... except: log`.
 
-   Two variants: [Current] transcribes the tree as it is (a failed start leaves the router thread, the
-   sockets already bound, the "$context" object and the singleton variable behind);
-   [Fixed] is the behaviour C12 demands (a failed start tears down what it built and resets the singleton). *)
+   Variants: [Fixed] is the behaviour C12 demands: a failed start tears down what it built and resets the
+   singleton; stop() continues past a stop handler raising ANY exception class.
+   [Tree] transcribes the tree as it is now (failed start repaired; a stop handler raising a BaseException that is
+   not an Exception aborts stop()).
+   [Current] is the tree before the failed-start repair (a failed start leaves the router thread, the sockets
+   already bound, the "$context" object and the singleton variable behind). *)
 From Coq Require Export List Arith Bool PeanoNat.
 Export ListNotations.
 
-Inductive variant := Fixed | Current.
+Inductive variant := Fixed | Tree | Current.
+Inductive hfault := HOk | HExc | HBase.   (* stop handler: returns / raises an Exception / raises a BaseException that is not an Exception *)
 Inductive mode := Direct | Single.       (* QMI_Context objects driven directly / the qmi.start singleton *)
 Inductive kind := KObj | KInst | KTask.
 Inductive fault := FNone | FTcp | FUdp | FPeer.
@@ -34,7 +38,7 @@ Inductive slot := Reserved | Live (o : nat).
 
 Inductive exn :=
 | EUsage | EInvalidOp | EDup | EUnknownName | ECtor | EOSError | EConnRefused | EAssert
-| ENoActive | EValue | EDelivery | EOther.
+| ENoActive | EValue | EDelivery | EBase | EOther.
 
 Inductive out := OOk | OVal (o : nat) | OExc (e : exn) | OSkip.
 
@@ -45,7 +49,7 @@ Inductive op :=
 | Make (n : nat) (k : kind) (ctor_ok rel_ok : bool)
 | Remove (n : nat) | Get (n : nat)
 | Call (i : nat)                        (* call through the i-th proxy ever handed out *)
-| AddH (bad : bool)                     (* register a stop handler (raising or not) *)
+| AddH (bad : hfault)                   (* register a stop handler (returning / raising, with the class raised) *)
 | Connect (reachable : bool).
 
 Record ctx := mkC {
@@ -57,7 +61,7 @@ Record ctx := mkC {
   objmap : list (nat * slot);           (* QMI_Context._rpc_object_map, insertion order; name 0 = "$context" *)
   handlers : list nat;                  (* keys of MessageRouter._address_to_messagehandler_map (without "$pubsub") *)
   cthreads : list nat;                  (* object ids whose _RpcThread is running *)
-  shs : list (nat * bool) }.            (* stop handlers: id, raises *)
+  shs : list (nat * hfault) }.          (* stop handlers: id, what it raises *)
 
 Record world := mkW {
   md : mode; vr : variant;
@@ -131,7 +135,7 @@ Definition c_handlers (c : ctx) (h : list nat) : ctx :=
   mkC (cid c) (active c) (used c) (router c) (tcp c) (udp c) (conn c) (objmap c) h (cthreads c) (shs c).
 Definition c_threads (c : ctx) (t : list nat) : ctx :=
   mkC (cid c) (active c) (used c) (router c) (tcp c) (udp c) (conn c) (objmap c) (handlers c) t (shs c).
-Definition c_shs (c : ctx) (s : list (nat * bool)) : ctx :=
+Definition c_shs (c : ctx) (s : list (nat * hfault)) : ctx :=
   mkC (cid c) (active c) (used c) (router c) (tcp c) (udp c) (conn c) (objmap c) (handlers c) (cthreads c) s.
 
 (* ---- the object worker thread: constructor, release ------------------------------------------ *)
@@ -226,15 +230,23 @@ Definition call (w : world) (i : nat) : out :=
   end.
 
 (* ---- stop handlers, peers --------------------------------------------------------------------- *)
-Definition addh (c : ctx) (bad : bool) (w : world) : res :=
+Definition addh (c : ctx) (bad : hfault) (w : world) : res :=
   let w1 := mkW (md w) (vr w) (cur w) (reg w) (nextoid w) (nextcid w) (S (nexth w)) (rel w) (relfail w)
                 (tasks w) (hruns w) (proxies w) (created w) (leaked w) (lrpc w) (lev w) (lport w) (ludp w) in
   Ret (set_ctx w1 (c_shs c (shs c ++ [(nexth w, bad)]))).
 
-Definition run_handler (h : nat * bool) (w : world) : res :=
+Definition run_handler (h : nat * hfault) (w : world) : res :=
   let w1 := mkW (md w) (vr w) (cur w) (reg w) (nextoid w) (nextcid w) (nexth w) (rel w) (relfail w)
                 (tasks w) (hruns w ++ [fst h]) (proxies w) (created w) (leaked w) (lrpc w) (lev w) (lport w) (ludp w) in
-  if snd h then Raise EOther w1 else Ret w1.
+  match snd h with HOk => Ret w1 | HExc => Raise EOther w1 | HBase => Raise EBase w1 end.
+
+(* QMI_Context.stop: `try: stop_handler() except Exception: log`.  The tree as it is lets a BaseException that is not
+   an Exception (SystemExit, KeyboardInterrupt, ...) escape: stop() is aborted.  C12 ("even if stop handlers raise")
+   demands that the shutdown continues: variant [Fixed] catches every class. *)
+Definition catch_exception (r : res) : res :=
+  match r with Raise EBase w => Raise EBase w | Raise _ w => Ret w | Ret w => Ret w end.
+Definition catch_stop_handler (v : variant) (r : res) : res :=
+  match v with Fixed => catch r | _ => catch_exception r end.
 
 Definition connect (c : ctx) (reachable : bool) (w : world) : res :=
   if negb (active c) then Raise EInvalidOp w
@@ -264,10 +276,10 @@ Definition reclaim (c : ctx) (w : world) : res :=
   let c1 := c_objmap c (reserved_entries (objmap c)) in
   stop_managers ms (set_ctx w c1).
 
-Fixpoint run_handlers (hs : list (nat * bool)) (w : world) : res :=
+Fixpoint run_handlers (hs : list (nat * hfault)) (w : world) : res :=
   match hs with
   | [] => Ret w
-  | h :: r => catch (run_handler h w) >>= run_handlers r
+  | h :: r => catch_stop_handler (vr w) (run_handler h w) >>= run_handlers r
   end.
 
 (* QMI_Context.stop *)
@@ -289,7 +301,7 @@ Definition ctx_start (c : ctx) (f : fault) (w : world) : res :=
     let fail (cx : ctx) : res :=
       match vr w with
       | Current => Raise EOSError (set_ctx w cx)         (* everything built so far stays *)
-      | Fixed =>                                         (* tear down: router, sockets, remaining objects *)
+      | _ =>                                             (* tear down: router, sockets, remaining objects *)
           let cy := c_flags (router_stop cx) false true in
           match reclaim cy (set_ctx w cy) with
           | Ret w' => Raise EOSError w' | Raise e w' => Raise e w' end
@@ -346,7 +358,7 @@ Definition qstart (f : fault) (peer : bool) (w : world) : res :=
     | Raise e w3 =>
         match vr w with
         | Current => Raise e w3
-        | Fixed =>                                  (* reset the singleton; stop the context if it got active *)
+        | _ =>                                      (* reset the singleton; stop the context if it got active *)
             let w4 := set_reg w3 false in
             match cur w4 with
             | Some c => if active c then Raise e (set_cur (wof (ctx_stop c w4)) None) else Raise e (set_cur w4 None)
